@@ -58,6 +58,21 @@ CHECKS.update(
     ),
 )
 
+CHECKS.update(
+    C05=dict(
+        category="other",
+        text="The real Padding classes, BaseImage._format_render/_check_formatting and Renderable.render run on proxy values: render size, "
+        "minimum size (absolute / terminal-relative), exact margins and terminal size are unbounded z3 integers (alignment is a forked "
+        "selector); get_padded_size = to_exact = max(render, minimum), resolve = max(terminal+d, 1) and the alignment split are unsat "
+        "queries. The padded output term is then interpreted on the terminal model with a symbolic probe cell: inner render exactly at "
+        "the alignment offset, fill (or untouched cells) elsewhere in the box, nothing outside, cursor and line count.",
+        note="Trusted: terminal model, z3, engine. Render heights and vertical margins are enumerated (bound stated in the evidence); "
+        "the inner render is an abstract box (glyph rows / ECH+CUF rows) whose contract C01 establishes for the real renderers.",
+        design="3 C05",
+        technique=TECH_S + "; terminal-model oracle with a symbolic probe cell",
+    ),
+)
+
 PENDING = {}
 
 
